@@ -106,6 +106,7 @@ type Sched struct {
 	Points  []PointRec
 	Races   []Race
 	locs    map[locKey]*locState
+	atoms   map[any][]int // what the stores to each sync/atomic variable released
 	Steps   int
 
 	// Choose returns the index of the enabled thread to run at decision i.
@@ -166,6 +167,23 @@ func (s *Sched) point(op Op) *Thread {
 func Yield(name string) {
 	if s := active; s != nil {
 		s.point(Op{Kind: OpYield, Name: name})
+	}
+}
+
+// AtomicOp is the scheduling point and the happens-before effect of one
+// sync/atomic operation on the variable identified by key (see vatomic).
+func AtomicOp(key any, name string, write bool) {
+	s := active
+	if s == nil {
+		return
+	}
+	t := s.point(Op{Kind: OpYield, Name: "atomic." + name})
+	if s.atoms == nil {
+		s.atoms = map[any][]int{}
+	}
+	t.acquire(s.atoms[key])
+	if write {
+		s.atoms[key] = t.release()
 	}
 }
 
